@@ -10,7 +10,7 @@ def run(ctx):
                           label="OrderIndependence in the design model (4 blocks, 2 Byzantine)")
     bftcommon.binding_demo(ctx)
     stats = []
-    stats += bftcommon.record_and_validate(ctx, "permute,latesibling,async-restart,posweights,stalepack", 24 if q else 600, 36, "c04-orders")
+    stats += bftcommon.record_and_validate(ctx, "permute,latesibling,async-restart,posweights,stalepack,shortbest", 24 if q else 600, 36, "c04-orders")
     stats += bftcommon.record_and_validate(ctx, "permute", 4 if q else 100, 90, "c04-long", seed_offset=5)
     fin, fork, both = bftcommon.nontrivial(stats)
     ctx.cov["evaluations"] = len(stats)
